@@ -316,6 +316,43 @@ MUTANTS = [
     ('C02', 'lattice_lib.py', '  if clip_inputs:\n    inputs = _clip_onto_lattice_range(\n        inputs=inputs, lattice_sizes=lattice_sizes)\n\n  lattice_rank = len(lattice_sizes)\n  input_dim = len(inputs.shape)\n  all_size_2 = all(size == 2 for size in lattice_sizes)',
      '  lattice_rank = len(lattice_sizes)\n  input_dim = len(inputs.shape)\n  all_size_2 = all(size == 2 for size in lattice_sizes)\n  raw_cell = tf.cast(inputs, tf.int32)\n  if clip_inputs:\n    inputs = _clip_onto_lattice_range(\n        inputs=inputs, lattice_sizes=lattice_sizes)', 'X5',
      'a cell index is taken from the coordinates before they are clipped'),
+    # ---- rules added with the fifth batch of seeded changes
+    ('C08', 'lattice_lib.py', '            weights - last_change[("TRAPEZOID", constraint, constraint_group)])',
+     '            weights - last_change[("TRAPEZOID", cond_dim, constraint_group)])', 'L4',
+     'trapezoid roll-back slot keyed by the conditional dimension only'),
+    ('C06', 'internal_utils.py', '    seen.add(v)\n    expand = [x for x in key_less_than_values[v] if x not in seen]\n    if not expand:\n      result = [v] + result\n      q.pop()',
+     '    expand = [x for x in key_less_than_values[v] if x not in seen]\n    if not expand:\n      result = [v] + result\n      seen.add(v)\n      q.pop()', 'O2',
+     'vertex marked visited only when it finishes'),
+    ('C16', 'internal_utils.py', '    seen.add(v)\n    expand = [x for x in key_less_than_values[v] if x not in seen]\n    if not expand:\n      result = [v] + result\n      q.pop()',
+     '    expand = [x for x in key_less_than_values[v] if x not in seen]\n    if not expand:\n      result = [v] + result\n      seen.add(v)\n      q.pop()', 'O2',
+     'vertex marked visited only when it finishes'),
+    ('C01', 'lattice_lib.py', '  any_edgeworth = bool(edgeworth_trusts)',
+     '  any_edgeworth = any(t[0] == 0 for t in edgeworth_trusts or [])', 'K6',
+     'any_edgeworth filtered by a feature'),
+    ('C10', 'pwl_calibration_lib.py', '    heights_tensor = -heights_tensor',
+     '    heights_tensor = -heights_tensor[::-1]', 'I6',
+     'decreasing initial heights reversed'),
+    ('C04', 'pwl_calibration_lib.py', '    bias = tf.maximum(bias, output_min)\n  if output_max_constraints == BoundConstraintsType.NONE:\n    return bias, heights\n  bias = tf.minimum(bias, output_max)',
+     '    bias = tf.maximum(bias, output_min)\n  elif output_max_constraints != BoundConstraintsType.NONE:\n    bias = tf.minimum(bias, output_max)\n  if output_max_constraints == BoundConstraintsType.NONE:\n    return bias, heights', 'K3s',
+     'upper clip of the bias in the elif of the lower clip'),
+    ('C18', 'premade_lib.py', '      weights = weights / counts', '      weights /= counts', 'K7',
+     'argument array divided in place'),
+    ('C18', 'premade_lib.py', '  if not np.issubdtype(np.asarray(labels).dtype, np.number):',
+     '  if not np.issubdtype(np.asarray(labels).dtype, np.floating):', 'K8',
+     'integer labels treated as category names'),
+    ('C14', 'kronecker_factored_lattice_lib.py', '  if lattice_sizes == 2:', '  if lattice_sizes == 2 and clip_inputs:', 'Y4',
+     'size-2 closed form only when clipping'),
+    ('C17', 'rtl_layer.py', '          input_index += 1', '          input_index += 2', 'W7',
+     'column counter advances by two per column'),
+    ('C12', 'linear_lib.py', None, None, None, None),
+    ('C11', 'premade_lib.py', '  regularizer_configs = []\n  regularizer_configs.extend(feature_config.regularizer_configs or [])',
+     '  regularizer_configs = feature_config.regularizer_configs or []', 'S13',
+     'feature regularizer list aliased and extended'),
+    ('C16', 'lattice_lib.py', '    if output_min >= output_max:', '    if output_min > output_max:', 'V10',
+     'equal lattice bounds accepted'),
+    ('C16', 'pwl_calibration_lib.py', '      if not all(input_keypoints[i] < input_keypoints[i + 1]\n                 for i in range(len(input_keypoints) - 1)):',
+     '      if list(input_keypoints) != sorted(input_keypoints):', 'V11',
+     'keypoints only required to be sorted'),
 ]
 MUTANTS = [m for m in MUTANTS if m[3] is not None or m[4] is not None]
 
